@@ -105,6 +105,37 @@ def ev(node, env, sub=None, call=None, attr=None):
             if attr is not None:
                 return attr(n, env, rec)
             raise Undecidable('attribute %s' % norm(n))
+        if isinstance(n, ast.Slice):
+            return slice(None if n.lower is None else rec(n.lower), None if n.upper is None else rec(n.upper),
+                         None if n.step is None else rec(n.step))
+        if isinstance(n, (ast.GeneratorExp, ast.ListComp)):
+            # comprehension over iterables the evaluator can produce: the targets are bound in a copy of the environment
+            out = []
+
+            def loop(k, e2):
+                if k == len(n.generators):
+                    out.append(ev(n.elt, e2, sub=sub, call=call, attr=attr))
+                    return
+                g = n.generators[k]
+                for v in ev(g.iter, e2, sub=sub, call=call, attr=attr):
+                    e3 = dict(e2)
+                    if isinstance(g.target, ast.Name):
+                        e3[g.target.id] = v
+                    elif isinstance(g.target, (ast.Tuple, ast.List)) and all(isinstance(t, ast.Name) for t in g.target.elts):
+                        vs = tuple(v)
+                        if len(vs) != len(g.target.elts):
+                            raise Undecidable('unpack in comprehension')
+                        for t, x in zip(g.target.elts, vs):
+                            e3[t.id] = x
+                    else:
+                        raise Undecidable('comprehension target')
+                    if all(ev(c, e3, sub=sub, call=call, attr=attr) for c in g.ifs):
+                        loop(k + 1, e3)
+            try:
+                loop(0, dict(env))
+            except TypeError as e:
+                raise Undecidable('comprehension: %s' % e)
+            return tuple(out)
         raise Undecidable('expression kind %s' % type(n).__name__)
     return rec(node)
 
